@@ -68,5 +68,8 @@ D6 == Doc(id(6), << IdF(id(6)) >>, <<>>)
 D7 == Doc(id(7), << IdF(id(7)), Syn(fSyn, << Def(bA, <<bB, bX>>), Def(bB, <<bA>>) >>) >>, <<>>)
 D8 == Doc(id(8), << IdF(id(8)), Syn(fSyn, << Def(bA, <<bX, bY>>) >>), Syn(fSyn2, << Def(bCafe, <<bA>>) >>) >>, <<>>)
 
-Catalogue == << D1, D2, D3, D4, D5, D6, D7, D8 >>
+\* 9 field a without doc values and with term vectors off (D1, D2, D4 index it with doc values)
+D9 == Doc(id(9), << IdF(id(9)), Txt(fA, TRUE, FALSE, 116, <<9>>, <<>>, 2, << Tk(bA, 1, <<>>), Tk(bX, 1, <<>>) >>) >>, <<>>)
+
+Catalogue == << D1, D2, D3, D4, D5, D6, D7, D8, D9 >>
 =============================================================================
